@@ -104,6 +104,32 @@ func init() {
 					L.Docs["selectors.yaml"] = add
 				}
 			}
+			// same kind NAME under a foreign API group (an operator's own StatefulSet, Job, …), loaded BEFORE the built-in
+			// one: the group-qualified field specs do not apply to it, and must still apply to the built-in resource
+			for li, L := range t.Layers {
+				var twins []Obj
+				for _, g := range append([]*GenRes{}, t.Res...) {
+					if g.Layer != li || g.Gen || r.Intn(4) != 0 {
+						continue
+					}
+					switch g.Kind {
+					case "StatefulSet", "Deployment", "DaemonSet", "ReplicaSet", "Job", "CronJob", "PodDisruptionBudget", "NetworkPolicy":
+					default:
+						continue
+					}
+					id := t.newID()
+					name := g.Name + "-frn"
+					tw := deepCopyJSON(map[string]interface{}(g.Obj)).(map[string]interface{})
+					tw["apiVersion"] = pickS(r, []string{"apps.example.io/v1beta1", "batch.example.io/v1alpha1", "ext.example.io/v1"})
+					tw["metadata"] = meta(id, name, g.NS, nil)
+					t.addRes(li, "Foreign-"+g.Kind, name, g.NS, Obj(tw))
+					twins = append(twins, Obj(tw))
+				}
+				if len(twins) > 0 {
+					L.ResF = append([]string{"foreign.yaml"}, L.ResF...)
+					L.Docs["foreign.yaml"] = twins
+				}
+			}
 			// make label directives frequent
 			for _, L := range t.Layers {
 				if L.Labels == nil && r.Intn(2) == 0 {
